@@ -252,7 +252,13 @@ func (g *gen) maybeOpts() *Opts {
 
 func (g *gen) genBadDecorate(s int) Op {
 	f := g.baseFn(s)
-	switch g.pick(9, "bdk") {
+	switch g.pick(10, "bdk") {
+	case 9: // flatten on a slice of slices in a decorator (and hostile group tags on slices of slices)
+		f.R = []Result{{IsObj: true, Obj: []Result{{Host: g.pickStr([]string{"sliceslice", "slicesliceS0"}, "dss"), Tag: g.pickStr([]string{`group:"g,flatten"`, `group:"g"`, `group:"h,flatten"`}, "dsst")}}}}
+		if g.pct(60, "dssp") {
+			f.P = []Param{{IsObj: true, Obj: []Param{{T: "T0", Group: "g"}}}}
+		}
+		return Op{K: OpDecorate, S: s, F: f}
 	case 0:
 		return Op{K: OpDecorate, S: s, Raw: g.pickStr(rawValues, "raw")}
 	case 1: // group result that is not a slice
